@@ -173,6 +173,50 @@ def close_vals(a, b):
     return abs(a - b) <= 1e-6 * max(abs(a), abs(b)) + 1e-5
 
 
+def triangulations_differ(path_a, path_b, fpt, spherical):
+    """do the depth surfaces of the original and of the moved world use different triangulations (after mapping the original's nodes with the motion)?
+    Both worlds are loaded once more with the hook that dumps every non-constant surface."""
+    aux_a, aux_b = path_a + ".c08aux", path_b + ".c08aux"
+    rc, out, err = proto.run_harness(["world a %s - aux %s" % (path_a, aux_a), "world b %s - aux %s" % (path_b, aux_b)])
+    if rc != 0 or out[:2] != ["ok", "ok"]:
+        return False
+
+    def read(path, mp):
+        surfaces, cur = [], None
+        for line in open(path):
+            w = line.split()
+            if not w:
+                continue
+            if w[0] == "surface":
+                cur = set(); surfaces.append(cur)
+            elif w[0] == "t" and cur is not None:
+                v = [proto.unhex(t) for t in w[1:]]
+                tri = []
+                for k in range(3):
+                    x, y = v[3 * k], v[3 * k + 1]
+                    if spherical:
+                        x, y = math.degrees(x), math.degrees(y)
+                    x, y = mp(x, y)
+                    tri.append((round(x, 6 if spherical else 1), round(y, 6 if spherical else 1)))
+                cur.add(frozenset(tri))
+        return surfaces
+    try:
+        sa, sb = read(aux_a, fpt), read(aux_b, lambda x, y: (x, y))
+    except Exception:
+        return False
+    return len(sa) == len(sb) and any(x != y for x, y in zip(sa, sb))
+
+
+def differs(x, y):
+    """a neighbour 1 m away answers differently: the tag or any composition / grains slot changes, or the temperature jumps by more than 1 K
+    (a feature painted over by a later one still shows in the slots the later one does not write)"""
+    if len(x) != len(y):
+        return True
+    if abs(x[0] - y[0]) > 1.0 or x[-1] != y[-1]:
+        return True
+    return any(abs(p - q) > 1e-4 * max(1.0, abs(p), abs(q)) for p, q in zip(x[1:-1], y[1:-1]))
+
+
 def oracle(seed, tier):
     rng = random.Random(seed * 4099 + 8)
     decl = json.load(open(proto.schema()[0]))
@@ -190,7 +234,7 @@ def oracle(seed, tier):
         for (sp, d) in qs:
             lines.append(q3("a", to3(g, sp, d), d, PROPS))
             for (sp2, d2) in neighbours(g, sp, d, spherical):
-                lines.append(q3("a", to3(g, sp2, d2), d2, [(1, 0, 0), (4, 0, 0)]))
+                lines.append(q3("a", to3(g, sp2, d2), d2, PROPS))
         mv = motions(rng, w, spherical)
         if spherical:
             mv.append(("query longitude +-360", w, (lambda x, y: (x + 360 if x < 0 else x - 360, y)), True))
@@ -201,7 +245,7 @@ def oracle(seed, tier):
             for (sp, d) in qs:
                 lines.append(q3("b%d" % mi, to3(g, list(fpt(sp[0], sp[1])), d), d, PROPS))
                 for (sp2, d2) in neighbours(g, sp, d, spherical):
-                    lines.append(q3("b%d" % mi, to3(g, list(fpt(sp2[0], sp2[1])), d2), d2, [(1, 0, 0), (4, 0, 0)]))
+                    lines.append(q3("b%d" % mi, to3(g, list(fpt(sp2[0], sp2[1])), d2), d2, PROPS))
         rc, out, err = proto.run_harness(lines)
         if rc != 0 or len(out) != len(lines):
             viol.append({"what": "library died on an original/moved world pair: rc=%s answered %d of %d %s" % (rc, len(out), len(lines), err[-300:]), "world_json": w, "probe": "crash"})
@@ -217,8 +261,7 @@ def oracle(seed, tier):
             ok = a[0] == "ok" and all(n[0] == "ok" for n in nb)
             boundary = True
             if ok:
-                t0, tag0 = a[1][0], a[1][-1]
-                boundary = any(n[1][1] != tag0 or abs(n[1][0] - t0) > 1.0 for n in nb)
+                boundary = any(differs(n[1], a[1]) for n in nb)
             base.append((a, boundary))
         k0 = k
         for mi, (name, w2, fpt, exact) in enumerate(mv):
@@ -236,7 +279,11 @@ def oracle(seed, tier):
                 cases += 1
                 # the moved query may itself sit on a decision boundary of the moved world (rounding of the moved coordinates decides there)
                 if b[0] == "ok" and all(n[0] == "ok" for n in nb):
-                    boundary = boundary or any(n[1][1] != b[1][-1] or abs(n[1][0] - b[1][0]) > 1.0 for n in nb)
+                    boundary = boundary or any(differs(n[1], b[1]) for n in nb)
+                elif b[0] != "ok":
+                    # the moved query throws (e.g. a polygon vertex that rounding puts outside every triangle of a depth surface): a boundary point
+                    # unless its six neighbours all answer, and alike
+                    boundary = boundary or not all(n[0] == "ok" for n in nb) or any(differs(n[1], nb[0][1]) for n in nb)
                 if boundary or a[0] != "ok":
                     skipped += 1
                     continue
@@ -254,9 +301,14 @@ def oracle(seed, tier):
                             bad = "output slot %d (%s) %r became %r" % (si, ["temperature", "composition 0", "composition 1", "composition 2", "composition 3"][si] if si < 5 else "grains", x, y)
                             break
                 if bad:
-                    viol.append({"what": "%s world: %s under %s at surface position %s depth %g" % ("spherical" if spherical else "cartesian", bad, name, [round(v, 6) for v in sp], d),
+                    p2_ = os.path.join(wdir, "m_%d_%d.wb" % (wi, mi))
+                    nonunique = w2 is not w and triangulations_differ(p0, p2_, fpt, spherical)
+                    if nonunique:
+                        bad += " [the two worlds triangulate a depth surface differently: its Delaunay triangulation is not unique]"
+                    viol.append({"probe": "depth-surface-triangulation-not-unique" if nonunique else "motion:%s" % kind,
+                                 "what": "%s world: %s under %s at surface position %s depth %g" % ("spherical" if spherical else "cartesian", bad, name, [round(v, 6) for v in sp], d),
                                  "world_json": w, "moved_world_json": w2, "world": p0, "moved_world": os.path.join(wdir, "m_%d_%d.wb" % (wi, mi)), "motion": name,
-                                 "features": [f["model"] for f in w["features"]], "probe": "motion:%s" % kind})
+                                 "features": [f["model"] for f in w["features"]]})
                     break
         if len(samples) < 2 and mv:
             samples.append({"world": json.dumps(w)[:500], "motions": [m[0] for m in mv], "queries": len(qs)})
